@@ -541,11 +541,13 @@ def swarm_check(pid, tier, plan, kinds, design_over=None, extra_oracles=(), vacu
         'traces_validated_against_impl': acc,
         'samples': [{'family': s.sc.get('family'), 'geometry': s.sc.get('geo'), 'peers': len(s.sc['peers']), 'steps': s.sc['steps'][:6]} for s in S[:: max(1, len(S) // 3)]][:3],
         'scenarios': len(S), 'trace_events_validated': stats['events'], 'design_depth': res.get('depth'),
+        'executions_not_explained_by_Swarm_tla_but_clean_at_property_level': len(unexplained),
         'design_actions_exercised': exercised,
         'impl_run_statistics': stats, 'exhaustive': True,
         'rule': rule + ' Design level: TLC explores every interleaving of the bounded MC_Swarm instance (adversarial remotes, frame menu %s). '
                 'Implementation level: seeded scenario families run the real Session/PeerHandler/Connection stack on in-memory streams under a paused clock; '
                 'every recorded event is consumed by one action of Swarm.tla with the logged post-state (SwarmTrace.tla), all invariants are evaluated in every state; '
+                'an execution that SwarmTrace.tla does not accept is re-read at property level by SwarmObs.tla (no action of Swarm.tla used; property formulas and Obs* step formulas); '
                 'wire/disk oracles are evaluated on the same runs. Where the plan contains the family "model", the scripts are behaviours of MC_SwarmGen.tla generated by TLC -simulate '
                 '(history variable `script`) and replayed into the real client (specification -> implementation direction).' % sorted(kinds),
     }
